@@ -8,8 +8,9 @@
                             written in terms of the encoder's ARGUMENTS (Model/AslEncoder.v)
      target_req aor idx  := broadcast when idx = None, unit idx otherwise; start byte FC / FA
      chr_ok e            := one-character str arguments are latin-1 characters              *)
-From DS Require Import Base.Prelude Base.Bits Model.Utils Model.AslLine Model.AslEncoder
-  Proofs.AslFrameProofs Proofs.AslLineProofs Proofs.AslEncoderProofs.
+From DS Require Import Base.Prelude Base.Bits Model.Utils Model.AslLine Model.AslEncoder.
+From DS Require Import Proofs.AslFrameProofs Proofs.AslLineProofs Proofs.AslEncoderProofs.
+From DS Require Import Gen.AslTables Proofs.AslTablesTie.
 
 (* Every message an encoder returns, run through framing + dispatch from the idle state of any
    line: True for every byte but the last; the last byte is exactly one dispatch of the request
@@ -59,6 +60,12 @@ Theorem C10_as_total : forall e idx aor, in_domain e -> chr_ok e ->
   exists bs, enc e idx aor = Some bs.
 Proof. exact enc_total. Qed.
 Print Assumptions C10_as_total.
+
+(* Tie to the source (AST of command_library.py, regenerated on every run): the public encoders,
+   in source order, and the command byte each passes to _compose. *)
+Theorem C10_as_encoders_tie : gen_encoders = golden_encoders.
+Proof. exact encoders_tie. Qed.
+Print Assumptions C10_as_encoders_tie.
 
 (* non-vacuity: the doctest values of command_library.py *)
 Example C10_as_ex1 : enc (ESetVelocity 1) (Some 1) true = Some [252; 129; 53; 0; 0; 1; 76].
